@@ -887,6 +887,21 @@ def _notation_rule(repo, rep):
                         'DSP0004 value is reported as an invalid integer'
                         % (pname, base, ','.join(lost),
                            s[:i] + lost[0] + s[i + 1:]))
+        # (c) only the ASCII digits of the radix: int() also converts other
+        # Unicode decimal digits, so a pattern that admits them (\d in a
+        # str pattern) turns a malformed entry into a number
+        r8.sites += 1
+        foreign = [d for d in ('\u0663', '\uff13', '\u0969')
+                   if cre.match(s[:i] + d + s[i + 1:])]
+        r8.ob(not foreign, '%s:ascii-digits' % pname)
+        if foreign:
+            rep.finding(r8, iv.qualname, '%s = %s' % (pname, pat),
+                        'non-ascii-digit', UTL, iv.node.lineno,
+                        'the %s notation accepts non-ASCII decimal digits '
+                        '(e.g. %r): int() converts them, so a malformed '
+                        'ValueMap entry / key value is taken as a number '
+                        'instead of being rejected (DSP0004 digits are '
+                        'US-ASCII)' % (pname, s[:i] + foreign[0] + s[i + 1:]))
 
 
 def factories_agree(repo, rep):
